@@ -18,7 +18,9 @@ while IFS='|' read -r name patch rev prop pkgs expect; do
     echo "selftest SKIP $name: patch does not apply ($(head -c 200 $tmp/err))"; fail=1; continue
   fi
   pk=(-pkgs "$pkgs"); [ "$pkgs" = "-" ] && pk=()
-  if out=$(bin/govc verify -prop "$prop" "${pk[@]}" -overlay "$tmp/ov.json" -expect-fail "$expect" 2>&1); then
+  # only the function the expected obligation belongs to is verified (the part of the expectation before '#')
+  on=(); case "$prop:$expect" in C10:*|C11:*) ;; *\#*) o="${expect%%#*}"; [ -n "$o" ] && on=(-only "$o");; esac
+  if out=$(bin/govc verify -prop "$prop" "${pk[@]}" "${on[@]}" -overlay "$tmp/ov.json" -expect-fail "$expect" 2>&1); then
     echo "ok   $name: $(echo "$out" | tail -1)"
   else
     echo "FAIL $name: $(echo "$out" | tail -2)"; fail=1
